@@ -26,6 +26,15 @@ claim("C13",
       "table contents are dumped from the compiled package on every run (after init) and assumed unmodified afterwards (the C18 frame claim); "
       "products of symbolic integers uninterpreted outside lemmas; contracts of ECBlocks methods applied to interior pointers &v.ecBlocks[i].")
 
+claim("C09",
+      "Only the orientation and mirroring mechanics are claimed; the negative guarantee ('never different content') is not decided. Proved for all inputs: "
+      "GoImageLuminanceSource.RotateCounterClockwise returns a view whose pixel (x, y) is the source pixel (width-1-y, x) of the cropped window, for every crop (C17 pixel model); "
+      "BitMatrixParser.Mirror transposes the module matrix (get'(a, b) == get(b, a) for every cell of a square matrix, nested loop invariants over the abstract bit view); "
+      "BitArray.Reverse reverses a row (C16); OneDReader.doDecode reverses the row only for the second attempt and attaches the ORIENTATION metadata only to a result found on that attempt (call-site assertions); "
+      "BitMatrix.Rotate180 reverses one-word rows (narrow contract; a defect for widths that are a multiple of 32 was found and fixed). "
+      "Not decided: that a located-but-damaged symbol is rejected rather than misread (rests on the check digits of C10, the BCH distance of C05 and Reed-Solomon decoding, not composed), the detectors, padding/upscaling invariance, "
+      "TRY_HARDER rotation in the readers, the mirrored flag in DecoderResult.",
+      "doDecode is checked for its call-site assertions only; float64 as reals; hint maps unmodelled.")
 claim("C10",
       "UPC/EAN mod-10: upceanReader_getStandardUPCEANChecksum is proved equal to the standard formula (recursive digit-sum spec, weights 3/1 from the right) and to "
       "fail exactly on a non-digit; checkStandardUPCEANChecksum is proved to accept exactly 'last digit == mod10(prefix)'; convertUPCEtoUPCA is proved equal to the "
@@ -146,6 +155,6 @@ claim("C17",
       "calculateBlackPoints, calculateThresholdForBlock, thresholdBlock, GetBlackRow).",
       "products of symbolic integers uninterpreted except for the proved index lemmas (viewRow, rotIdx, rowIdxInj); errors constructors from xerrors assumed non-panicking.")
 
-for p in ["C02","C03","C09"]:
+for p in ["C02","C03"]:
     na(p, NOTYET)
 na("C11", "The library has no Aztec writer: 'conforming symbol' would have to be a hand-written restatement of ISO/IEC 24778 (a model, not the code), and the image-to-bits path is a float-geometry detector; no contract on one call of the real code expresses the property. The Aztec decoder's totality is covered under C06.")
